@@ -203,6 +203,21 @@ def gen_cases(tier, seed):
         if FMT[ext]["canon"] == "pdb":
             c.update(ter=True, header=True, bf="none")
         yield c
+    # many frames, few atoms: frame counts beyond any internal chunk, index or buffer size of the writers and readers
+    long_ = [e for e in EXT_STREAM if FMT[e]["canon"] not in ("rst7", "ncrst")]
+    if tier != "thorough":
+        long_ = [long_[(seed * 3 + k * 5) % len(long_)] for k in range(4)]
+    for k, ext in enumerate(long_):
+        rng = common.rng_for("C01long", seed, k)
+        c = dict(i=i + n + 100 + k, seed=common.case_seed(seed, "C01long", k), ext=ext, nf=int(rng.choice([1025, 2500, 4099])), na=int(rng.choice([1, 2, 3, 10])),
+                 mag=9.0, dist="spread", sign="mixed", time="nonuniform", cell=str(rng.choice(["ortho", "none", "pf-tric"])), cellscale=1.0, top="ident")
+        if FMT[ext]["canon"] == "lammpstrj" and c["cell"] == "none":
+            c["cell"] = "ortho"
+        if FMT[ext]["canon"] == "gro":
+            c["prec"] = 3
+        if FMT[ext]["canon"] == "pdb":
+            c.update(ter=bool(k % 2), header=True, bf="none")
+        yield c
 
 
 def _topology(case):
